@@ -149,6 +149,12 @@ func (s *socket) Construct(id string, server BaseServer, transport transports.Tr
 	}
 
 	s.setTransport(transport)
+	// the transport's reader has been running since the transport was constructed: a close
+	// that happened before the listeners above were attached was announced to nobody
+	if transport.ReadyState() == "closed" {
+		s.OnClose("transport close")
+		return
+	}
 	s.onOpen()
 }
 
